@@ -30,6 +30,8 @@ reaches too rarely (each added after a seeded change was missed; see DESIGN.md Â
   cap_<n>               n = 129..140 simultaneously live integers at a print: the capacity boundary of the spill
                          tables (x86-64 133, AArch64 140): refuse with the capacity message or run correctly (C09, C13)
   capp_<n>              the same without temporaries: exactly n variables live across the prints
+  lzs_<n>_<f>           an object dropped earlier, then an f-field (multi-block) object built with n live integers (C07, C09)
+  zhd_<n>_<h>           a list with head element h (0!) matched with n live integers, tail dropped, in a loop (C10, C09)
   nest_<k>              a `case` and a closure on instances whose type arguments are themselves parameterised
                          types in every position (labels are built from printed type names: C14)
 Every program has `main(arg: i64): i64`, takes the argument tuple in the sibling .args file."""
@@ -306,6 +308,45 @@ def capp_prog(n):
     return "def main(arg: i64): i64 { %s %s %s 0 }\n" % (lets, keep, rest)
 
 
+def lzs_prog(n, nf):
+    """an object was dropped earlier (lazy free list non-empty), then an object of nf > 3 fields (several blocks) is
+    built while n other integers are live (block links spilled for large n), matched and its fields printed"""
+    xs = ", ".join("x%d: i64" % i for i in range(n))
+    xargs = ", ".join("x%d" % i for i in range(n))
+    vals = ", ".join(str(i + 1) for i in range(n))
+    tot = "0"
+    for i in range(n):
+        tot = "(%s + x%d)" % (tot, i)
+    fields = ", ".join("f%d: i64" % i for i in range(nf))
+    names = ", ".join("g%d" % i for i in range(nf))
+    prints = " ".join("println_i64(g%d);" % i for i in range(nf))
+    qargs = ", ".join(["a", "b", "c", "d", "a", "b", "c", "d"][:nf])
+    sep = ", " if n else ""
+    return (
+        "data Wide { Q(%s) }\ndata Box { B(x: i64) }\ndata Trip { T(x: i64, y: i64, z: Box) }\n"
+        "def use(q: Wide%s%s): i64 { q.case { Q(%s) => %s %s } }\n"
+        "def go(%s%sa: i64, b: i64, c: i64, d: i64): i64 { let t: Trip = T(a, b, B(c)); use(Q(%s)%s%s) }\n"
+        "def main(arg: i64): i64 { println_i64(go(%s%s101, 102, 103, arg)); println_i64(go(%s%s201, 202, 203, arg)); 0 }\n"
+        % (fields, sep, xs, names, prints, tot, xs, sep, qargs, sep, xargs, vals, sep, vals, sep)
+    )
+
+
+def zhd_prog(nlive, head):
+    """a list whose HEAD ELEMENT is `head` (0 leaves a zero in a scratch register) is matched with nlive other live
+    integers and its tail dropped, in a loop"""
+    ps = ", ".join("p%d: i64" % i for i in range(nlive))
+    vs = ", ".join(str(i + 1) for i in range(nlive))
+    tot = "x"
+    for i in range(nlive):
+        tot = "(%s + p%d)" % (tot, i)
+    return HEAD + (
+        "def build(n: i64, acc: List[i64]): List[i64] { if n == 0 { acc } else { build(n - 1, Cons(n, acc)) } }\n"
+        "def first(l: List[i64], %s): i64 { l.case[i64] { Nil => p0, Cons(x, xs) => %s } }\n"
+        "def loop(n: i64, v: i64, total: i64): i64 { if n == 0 { total } else { loop(n - 1, v, total + first(Cons(v, build(6, Nil)), %s)) } }\n"
+        "def main(arg: i64): i64 { println_i64(loop(4, %d, arg)); 0 }\n" % (ps, tot, vs, head)
+    )
+
+
 def main():
     out = sys.argv[1]
     os.makedirs(out, exist_ok=True)
@@ -358,6 +399,12 @@ def main():
         emit("cap_%d" % nn, cap_prog(nn))
     for nn in (131, 132, 133, 134, 135, 139, 140, 141, 142):
         emit("capp_%d" % nn, capp_prog(nn))
+    for nn in (0, 11, 12, 13, 14):
+        for nf in (4, 7):
+            emit("lzs_%02d_%d" % (nn, nf), lzs_prog(nn, nf))
+    for nn in (5, 12, 13, 14):
+        for hd in (0, 7):
+            emit("zhd_%02d_%d" % (nn, hd), zhd_prog(nn, hd))
     for k in range(len(NEST_TYPES)):
         emit("nest_%d" % k, nest_prog(k))
     print(n, "programs")
